@@ -226,4 +226,52 @@ end clauses
 def canonicalFor (p n r : Int) : Bool :=
   decide (0 ≤ r) && decide (r < p) && (n - r) % p == 0
 
+/-! ### barycentric placement of a periodic graph
+
+A periodic graph is a *set* of edges `h --(s)-> t`; `t --(-s)-> h` is the same edge.  Loops
+contribute `s + (-s) = 0` to their vertex's equation and are left out.  The placement is
+barycentric when, for every vertex `v` and coordinate `k`,
+`Σ_{edges h=v} (pos t + s − pos v) + Σ_{edges t=v} (pos h − s − pos v) = 0`,
+and it is normalised by `pos(first vertex) = 0`. -/
+
+abbrev PEdge := Nat × Nat × List Int
+
+/-- orient a non-loop edge towards the larger vertex -/
+def orientEdge (e : PEdge) : PEdge :=
+  if e.1 < e.2.1 then e else (e.2.1, e.1, e.2.2.map fun x => -x)
+
+def edgeSet (es : List PEdge) : List PEdge :=
+  ((es.filter fun e => e.1 != e.2.1).map orientEdge).eraseDups
+
+def posOf (pos : List (Nat × List R)) (v : Nat) : Option (List R) :=
+  (pos.find? fun pq => pq.1 == v).map (·.2)
+
+def rsum (xs : List R) : R := xs.foldl R.add (R.ofInt 0)
+
+/-- the `k`-th barycentric equation at `v` -/
+def baryEq (es : List PEdge) (pos : List (Nat × List R)) (v k : Nat) : Bool :=
+  match posOf pos v with
+  | none => false
+  | some pv =>
+    let terms := es.filterMap fun e =>
+      let (h, t, s) := e
+      if h == v then
+        (posOf pos t).map fun pt => R.sub (R.add (pt.getD k (R.ofInt 0)) (R.ofInt (s.getD k 0))) (pv.getD k (R.ofInt 0))
+      else if t == v then
+        (posOf pos h).map fun ph => R.sub (R.sub (ph.getD k (R.ofInt 0)) (R.ofInt (s.getD k 0))) (pv.getD k (R.ofInt 0))
+      else none
+    let expected := (es.filter fun e => e.1 == v || e.2.1 == v).length
+    terms.length == expected && (rsum terms).isZero
+
+def barycentricOk (raw : List PEdge) (d : Nat) (pos : List (Nat × List R)) : Bool :=
+  let es := edgeSet raw
+  let verts := (raw.flatMap fun e => [e.1, e.2.1]).eraseDups
+  let first := verts.foldl Nat.min (verts.headD 0)
+  pos.length == verts.length && verts.all (fun v => (posOf pos v).isSome) &&
+  pos.all (fun pq => pq.2.length == d) &&
+  (match posOf pos first with
+    | some p0 => p0.all R.isZero
+    | none => false) &&
+  verts.all fun v => (List.range d).all fun k => baryEq es pos v k
+
 end DSymVerif.SpecC18
